@@ -70,8 +70,14 @@ def validateOp (j : Json) : R Json := do
   pure (Json.mkObj [("valid", toJson (validate gs n qmap inputs defs rets)),
     ("clean", toJson (validateClean gs n inputs.length outs)), ("wellformed", toJson (wellFormed gs n))])
 
+/-- `comp.setorder`: the model of CPython's `list(set(l))` on its own (cross-checked by the harness) -/
+def setOrderOp (j : Json) : R Json := do
+  let ls ← j.getObjValAs? (List (List Nat)) "lists"
+  pure (Json.mkObj [("orders", toJson (ls.map pySetOrder))])
+
 def handle (op : String) (j : Json) : Option (R Json) :=
   match op with
+  | "comp.setorder" => some (setOrderOp j)
   | "comp.compile" => some (compileOp j)
   | "comp.validate" => some (validateOp j)
   | _ => none
